@@ -12,10 +12,22 @@ Streams (correspondence; model = `lake env lean --run Driver/C06.lean`, Core/Cal
   spec-land   : the callee's locals() on entry under CPython (which argument lands where)     vs Lean `cpyLand`
   spec-diag   : reference `member` of every landed argument in the declared type              vs Lean `specDiag` (built on `mem`)
   spec-res    : what the template body really returns; `member(result, model type)`           vs Lean `runTmpl`, `mem`
+  spelling    : metamorphic: the same call against the same declared types with the annotations written in every spelling
+                (unquoted; fully quoted; every class name inside a construct quoted: Optional["A"], list["A"], dict[str, "A"],
+                Union["A", int], tuple["A", ...], type["A"]; names defined after the function; module-level aliases of
+                partially quoted types; TypeVars with string bound / constraints; `from __future__ import annotations`) x every
+                callee form (module-level def, method, classmethod, staticmethod, nested def = signature from the def node,
+                function imported from a generated library module = signature from the runtime object with its own globals):
+                every verdict and inferred type must equal the plain module-level one     vs each other and the model verdict
+  translator  : Generated/AnnotCtx.lean = every type_from_runtime / AnnotationsContext site of arg_spec.py with the context /
+                globals it gets (AST scan of the live source); obligation `annotation_contexts_registered`
 Property search on the implementation (oracle independent of pyanalyze: real execution + reference `member`):
   P1 (no type variables, call binds)     : incompatible_argument reported  <=>  some landed argument is not a member of the
                                            declared type of its parameter
   P2 (call binds, nothing reported)      : member(value returned by really executing the call, type pyanalyze inferred)
+  P4 (type variables, nothing reported)  : every landed argument is a member of the declared type with each type variable
+                                           at its declared bound / the union of its constraints (solver-independent)
+  P1 and P4 are also evaluated on every (spelling, callee form) variant of the spelling stream.
   P3 (type variables, nothing reported)  : every landed argument is a member of the declared type with pyanalyze's own
                                            solution substituted (otherwise an error had to be reported)
 """
@@ -57,7 +69,10 @@ RULE = (
     "seeded random static type terms (classes, Literal, unions, list/set/dict/tuple generics, Sequence/Mapping/..., NewType, "
     "type[...], Annotated) or type-variable forms (T, list[T], set[T], Sequence[T], dict[K, V], dict[str, T], tuple[T, K], "
     "list[list[T]], T bounded by int, T constrained to (int, str)); bodies: return a parameter / element 0 of a list, tuple "
-    "or *args parameter / a constant of the declared type; 5 calls per callable: arguments generated to fit the declared "
+    "or *args parameter / a constant of the declared type; spelling stream: 8 hand-picked callables (Optional / list / dict / "
+    "bounded and constrained TypeVar / *args / **kw / type[...] / tuple / NewType over names that can be forward references) "
+    "plus 20 (quick) / 220 (thorough) of the generated plain callables, each call in 7 spellings x 6 callee forms; "
+    "5 calls per callable: arguments generated to fit the declared "
     "types, near misses and random literals; ~10% calls that do not bind (correspondence only). non-trivial = at least one "
     "argument lands on an annotated parameter; distinct by (definition, call) text. Excluded from the oracle (property "
     "silent): str/bytes objects against generic ABC targets; non-literal argument expressions"
@@ -1525,9 +1540,77 @@ def evaluate(ctx, items, with_model=True):
                                 break
 
 
+def annotation_context_sites(repo=None):
+    """From the live source of pyanalyze/arg_spec.py: every construction of an AnnotationsContext (which globals it gets)
+    and every `type_from_runtime(...)` call (which context it is given; a local variable is resolved to everything assigned
+    to it in the enclosing function). A parameter / return annotation converted with a context that has no globals loses
+    every forward reference it contains."""
+    import ast
+    repo = repo or os.environ.get("VERIF_REPO", "/repo")
+    src = open(os.path.join(repo, "pyanalyze", "arg_spec.py")).read()
+    tree = ast.parse(src)
+    ctors, calls = [], []
+
+    def classify(e, fn):
+        if e is None:
+            return ["none"]
+        if isinstance(e, ast.Call) and isinstance(e.func, ast.Name) and e.func.id == "AnnotationsContext":
+            extra = [ast.unparse(a) for a in e.args[1:]] + ["%s=%s" % (k.arg, ast.unparse(k.value)) for k in e.keywords]
+            return ["globals:" + ",".join(extra)] if extra else ["noglobals"]
+        if isinstance(e, ast.Attribute) and ast.unparse(e) == "self.default_context":
+            return ["default"]
+        if isinstance(e, ast.Name):
+            out = []
+            for n in ast.walk(fn):
+                if isinstance(n, ast.Assign) and any(isinstance(t, ast.Name) and t.id == e.id for t in n.targets):
+                    out += classify(n.value, fn)
+            return sorted(set(out)) or ["param:" + e.id]
+        return ["other:" + ast.unparse(e)]
+
+    def visit(node, qual):
+        for ch in ast.iter_child_nodes(node):
+            if isinstance(ch, (ast.FunctionDef, ast.AsyncFunctionDef, ast.ClassDef)):
+                q = (qual + "." if qual else "") + ch.name
+                if not isinstance(ch, ast.ClassDef):
+                    for n in ast.walk(ch):
+                        if isinstance(n, ast.Call) and isinstance(n.func, ast.Name):
+                            if n.func.id == "AnnotationsContext":
+                                ctors.append((q, "|".join(classify(n, ch))))
+                            elif n.func.id == "type_from_runtime":
+                                ctxe = next((k.value for k in n.keywords if k.arg == "ctx"), None)
+                                if ctxe is None and len(n.args) > 2:
+                                    ctxe = n.args[2]
+                                calls.append((q, "|".join(classify(ctxe, ch))))
+                visit(ch, q)
+
+    visit(tree, "")
+    return sorted(set(ctors)), sorted(set(calls))
+
+
+def annot_ctx_lean(ctors, calls):
+    def lst(xs):
+        return "[" + ",\n    ".join('("%s", "%s")' % x for x in xs) + "]"
+    return """/-! GENERATED by harness/props/c06.py (annotation_context_sites) from the live pyanalyze/arg_spec.py on every run.
+Do not edit. `liveAnnotCtxCtors`: (function, globals given to `AnnotationsContext(...)`);
+`liveTypeFromRuntime`: (function, context given to `type_from_runtime(...)`; several sources are joined by `|`). -/
+namespace Pya.C06
+
+def liveAnnotCtxCtors : List (String × String) :=
+  %s
+
+def liveTypeFromRuntime : List (String × String) :=
+  %s
+
+end Pya.C06
+""" % (lst(ctors), lst(calls))
+
+
 def translate(ctx):
     tb, changed = V.regenerate_class_table()
     ctx.extra["class_table_regenerated"] = {"changed_on_disk": changed, "classes": len(tb["names"])}
+    ctors, calls = annotation_context_sites()
+    ch2 = lean.write_if_changed(os.path.join(lean.LEAN, "PyaModel", "Generated", "AnnotCtx.lean"), annot_ctx_lean(ctors, calls))
+    ctx.extra["annotation_context_sites"] = {"changed_on_disk": ch2, "constructors": ctors, "type_from_runtime": calls}
 
 
 def spelling_items(ctx, items):
